@@ -385,6 +385,29 @@ def cli_matrix():
     r = run(['--check', '--config', 'newline_style=Unix', 'nl.rs'])
     if r.returncode != 1:
         findings.append('--check with a newline-style-only difference: exit %d, expected 1 (plain rustfmt rewrites the file)' % r.returncode)
+    # ... and files mode does rewrite such a file (both directions), so that --check and the rewrite agree
+    for text, style, want in ((crlf_good, 'Unix', good.encode()), (good, 'Windows', crlf_good.encode())):
+        pth = w('nl.rs', text)
+        r = run(['--config', 'newline_style=%s' % style, 'nl.rs'])
+        if open(pth, 'rb').read() != want:
+            findings.append('files mode with newline_style=%s left a file that differs only in its line terminators as it was (exit %d); --check reports it' % (style, r.returncode))
+    # a diagnostic that is left behind (trailing blanks in a statement that cannot be formatted) fails the run under --check as without it
+    left = 'fn main() {\n    let x = foo(  \n        %s);\n}\n' % ('a' * 100)
+    w('left.rs', left)
+    r1 = run(['--emit', 'stdout', 'left.rs'])
+    r2 = run(['--check', 'left.rs'])
+    if r1.returncode == 1 and 'left behind trailing whitespace' in r1.stderr and r2.returncode != 1:
+        findings.append('--check exits %d on a file for which a diagnostic is printed (trailing whitespace left behind) and which exits 1 without --check' % r2.returncode)
+    # --backup keeps a copy of every file it rewrites, also together with -l / --files-with-diff
+    for extra in (['-l'], ['--files-with-diff'], []):
+        w('bad.rs', bad)
+        r = run(['--backup'] + extra + ['bad.rs'])
+        bk = os.path.join(d, 'bad.bk')
+        if not os.path.exists(bk) or open(bk).read() != bad or open(os.path.join(d, 'bad.rs')).read() != good:
+            findings.append('--backup %s: bad.bk %s, bad.rs %s' % (' '.join(extra), 'holds the original' if os.path.exists(bk) and open(bk).read() == bad else 'missing or wrong',
+                                                                     'formatted' if open(os.path.join(d, 'bad.rs')).read() == good else 'not formatted'))
+        if os.path.exists(bk):
+            os.remove(bk)
     # --check combined with an inline emit_mode
     w('bad.rs', bad)
     hb = h(os.path.join(d, 'bad.rs'))
